@@ -67,6 +67,7 @@ Q = {
     "s_cap2_tti": S("cap2_tti", depth=6),
     "s_ttl_tti": S("ttl_tti", depth=6),
     "s_nocap": S("nocap", depth=6),
+    "s_cap2_ttl_w": S("cap2_ttl_tti_w", weights=(1, 2), depth=5),
 }
 # thorough sizes (minutes; each under its own time limit)
 T = {
@@ -98,9 +99,9 @@ RT = [RU("cap_unit", depth=6), RU("cap_weight", weights=(0, 1, 2, 5), depth=5), 
       RS("cap2_tti", depth=7), RS("cap2_ttl_tti_w", weights=(1, 5), depth=6), RS("cap_const", weights=(1, 2), depth=6),
       RS("cap1", nkeys=3, depth=6)]
 VQ = [("unsync-small", 120, 40), ("unsync-mid", 30, 120), ("sync-small", 120, 40), ("sync-mid", 30, 120),
-      ("sync-eager", 40, 60), ("sync-far", 150, 16), ("sync-burst", 250, 3)]
+      ("sync-eager", 40, 60), ("sync-far", 150, 16), ("sync-burst", 250, 3), ("sync-grow", 100, 2)]
 VT = [("unsync-small", 2000, 60), ("unsync-mid", 400, 400), ("sync-small", 2000, 60), ("sync-mid", 400, 400),
-      ("sync-eager", 600, 120), ("sync-far", 6000, 20), ("sync-burst", 7000, 4)]
+      ("sync-eager", 600, 120), ("sync-far", 6000, 20), ("sync-burst", 7000, 4), ("sync-grow", 1200, 2)]
 
 QSLICES = {
     "C01": ["cap2", "expiry2", "cap_const2", "s_cap1", "s_ttl_tti"],
@@ -111,7 +112,7 @@ QSLICES = {
     "C07": ["cap2k2", "expiry2", "s_cap1", "s_ttl_tti"],
     "C10": ["cap2", "cap_weight2", "cap1_ttl", "s_cap1", "s_cap2_w", "s_cap1_ttl"],
     "C11": ["cap2", "cap1_ttl", "s_cap1", "s_cap1_ttl"],
-    "C12": ["cap2", "cap_weight2", "cap2_tti", "s_cap1", "s_cap2_w"],
+    "C12": ["cap2", "cap_weight2", "cap2_tti", "s_cap1", "s_cap2_w", "s_cap2_ttl_w"],
     "C13": ["cap2", "cap_weight2", "cap_const2", "s_cap1", "s_cap2_w"],
     "C16": ["cap2", "expiry2", "s_nocap", "s_ttl_tti"],
     "C14": ["cap2", "cap_const2", "s_cap1"],
@@ -940,6 +941,33 @@ def stage_conc_f(ctx, runs, threads, ops):
     os.remove(trace)
 
 
+def stage_iter(ctx):
+    """C16 beside concurrent writers: iterator threads walk the cache while writer threads update a
+    fixed key set; every iteration must yield every key once with a value current during it."""
+    name = "cf_iter"
+    trace = os.path.join(ctx.wd, name + ".trace.ndjson")
+    runs = 6 if ctx.tier == "quick" else 60
+    hr = V.harness(["free", "iter", str(ctx.seed), str(runs), trace], timeout=1800)
+    if hr.returncode != 0:
+        with open(trace, "a") as f:
+            f.write(json.dumps({"ev": "Crash", "rc": hr.returncode}) + "\n")
+    consts = {"NKeys": 24, "MaxInfo": 30, "RLog": 384, "WLog": 384, "Flush": 64, "MaxRepeats": 4, "SBatch": 500,
+              "Period": 1280, "Dev": set(), "Threads": 5, "CheckProps": {"C16"}}
+    st, viol, drift = generic_trace_check(ctx, "TraceConc.tla", name, trace, consts)
+    ctx.events += st["events"]
+    ctx.nontrivial += st["nt"].get("C16", 0)
+    bad = conc_verdict(ctx, name, trace, None, viol)
+    ctx.traces_ok += st["behaviours"] - len(bad)
+    with open(trace) as f:
+        for l in f:
+            if '"IterRun"' in l:
+                e = json.loads(l)
+                e["items"] = e["items"][:6]
+                ctx.samples.append({"kind": "iteration beside writers (first items)", "event": e})
+                break
+    os.remove(trace)
+
+
 def stage_burst(ctx, n):
     name = "cf_burst"
     trace = os.path.join(ctx.wd, name + ".trace.ndjson")
@@ -1081,6 +1109,8 @@ def run_property(prop, tier, seed):
         stage_deque(ctx)
     if prop in ("C03", "C04", "C08", "C10", "C11"):
         stage_conc_light(ctx)
+    if prop == "C16":
+        stage_iter(ctx)
     stage_findings(ctx)
     return finish(ctx)
 
